@@ -15,5 +15,6 @@ import Mahotas.Proofs.PyBodyTiesC17
 import Mahotas.Proofs.PyBodyTiesC18
 import Mahotas.Proofs.PyBodyTiesC18b
 import Mahotas.Proofs.PyBodyTiesC16Rc
+import Mahotas.Proofs.PyBodyTiesC19
 import Mahotas.Proofs.PyBodyTiesC20
 import Mahotas.Proofs.PyBodyTiesC20b
